@@ -45,6 +45,10 @@ def gen(rng):
                 ops.append(f"pub p {topic} q=2 pid={pid} d=1 tag=m{tag}")
             if rng.random() < 0.4:
                 ops.append(f"rel p {pid}")
+            elif rng.random() < 0.25:
+                # PUBREL for an identifier the broker does not know: the PUBCOMP it is answered with increments the
+                # sender's quota like any other PUBCOMP (MQTT 5 section 4.9), never above the initial value
+                ops.append(f"rel p {pid + 500}")
         else:
             ops.append(f"pub p {topic} q=1 pid={pid} tag=m{tag}")
         ops.append("ack s puback all")
@@ -59,7 +63,9 @@ def predicate(ops, out):
     topic_of = {}          # tag -> real topic
     table = {}             # subscriber's alias table (client side)
     in_alias = {}          # publisher's alias bindings as the spec defines them
-    outstanding = set()    # publisher's QoS>0 packet ids not yet completed
+    outstanding = set()    # publisher's QoS 2 packet ids not yet released (a retransmission of one takes no quota)
+    quota = None           # the publisher's send quota as MQTT 5 section 4.9 defines it: starts at the advertised Receive
+                           # Maximum, -1 for every QoS>0 PUBLISH sent, +1 (capped) for every PUBACK / PUBCOMP / failing PUBREC received
     p_alive = True
     for op, line in zip(ops, out):
         if "HANG" in line:
@@ -69,6 +75,7 @@ def predicate(ops, out):
         pre, conns = wire.parse_line(line)
         if f[0] == "new":
             rm, ta, smp = int(kv["rm"]), int(kv["ta"]), int(kv["mp"])
+            quota = rm
         elif f[0] == "conn" and f[1] == "s":
             cmp_ = int(kv["mp"]) if "mp" in kv else None
             cta = int(kv.get("ta", 0))
@@ -107,7 +114,7 @@ def predicate(ops, out):
             # what the limits advertised in CONNACK allow
             want = None
             also = set()         # further limits violated by the same packet: any of their codes is a correct refusal
-            if q > 0 and len(outstanding) >= rm:
+            if q > 0 and quota <= 0 and not (q == 2 and pid in outstanding):
                 want = 147           # 0x93 Receive Maximum exceeded
             # size of the packet as sent is not reconstructed here: only the clear cases
             if a is not None:
@@ -126,6 +133,12 @@ def predicate(ops, out):
             approx = 2 + 2 + len(f[2].replace("~", "")) + (2 if q else 0) + 1 + (3 if a is not None else 0) + max(n, len(kv.get("tag", "")))
             if want is None and approx > smp:
                 want = 149           # 0x95 Packet too large
+            if want is None and q == 2 and pid in outstanding and quota <= 0 and disc == "disconnect(147)":
+                # a same-connection retransmission while the quota is used up: MQTT 5 forbids resending inside a connection
+                # (MQTT-4.4.0-1) and section 4.9 would count it, so refusing it is as correct as accepting it; what the
+                # check insists on is that an accepted one never leaks quota (F59)
+                p_alive = False
+                continue
             if want is not None:
                 if disc != f"disconnect({want})" and disc not in [f"disconnect({k})" for k in also]:
                     if not (want == 149 and disc is None):
@@ -138,12 +151,17 @@ def predicate(ops, out):
                 return f"`{op}`: the client stayed within the advertised limits (receive maximum {rm}, alias maximum {ta}, packet size {smp}) but was disconnected: {h}"
             topic_of[kv.get("tag")] = topic
             if q > 0:
+                if not (q == 2 and pid in outstanding): quota -= 1
                 if q == 2: outstanding.add(pid)
                 ack = next((x for x in h if x.startswith(("puback(" + pid, "pubrec(" + pid))), None)
                 if ack is None:
                     return f"`{op}`: no acknowledgement for packet id {pid}: {h}"
         elif f[0] == "rel" and f[1] == "p":
             outstanding.discard(f[2])
+        if p_alive and quota is not None:
+            for x in conns.get("p", ([], []))[0]:
+                if x.startswith(("puback(", "pubcomp(")) or (x.startswith("pubrec(") and int(x[7:-1].split(",")[1]) >= 128):
+                    quota = min(rm, quota + 1)
         elif f[0] == "ping" and f[1] == "s":
             if "pingresp" not in conns.get("s", ([], []))[0]:
                 return f"`{op}`: the subscriber's connection did not stay up"
